@@ -44,9 +44,31 @@ class CustomTypeB(UnitType):
         return False
 
 
+class CustomTypeG(UnitType):
+    """A conversion class that really converts: units defined with it are gauge units with an
+    offset of 10 base units, and while it is registered it also takes over Celsius.  Once its
+    scope has ended none of this may be observable any more."""
+    def _istype(self):
+        units = self.baseunits1.units + self.baseunits2.units
+        mine = False
+        for u in units:
+            try:
+                if S.UNIT_STANDARD[u].definition is CustomTypeG:
+                    mine = True
+            except Exception:
+                pass
+        if mine or "Cel" in units:
+            self.conversion = ("_convert_gauge",)
+            return True
+        return False
+
+    def _convert_gauge(self, value):
+        return value + 10.0
+
+
 # "S"/"T": a custom unit may also name a *built-in* conversion class as its definition;
 # the scope must then leave that class in the table when it ends
-CUSTOM_TYPES = {"A": CustomTypeA, "B": CustomTypeB, "S": StandardUnitType,
+CUSTOM_TYPES = {"A": CustomTypeA, "B": CustomTypeB, "G": CustomTypeG, "S": StandardUnitType,
                 "T": TemperatureUnitType}
 BUILTIN_TYPES = ("S", "T")
 
@@ -231,7 +253,7 @@ class UnitScopeMachine(Machine):
             if self.cfg["prefix_units"] and rng.random() < 0.4:
                 u["prefixes"] = rng.choice([True, ["k", "M"], ["m"], False])
             if self.cfg["custom_types"] and rng.random() < 0.3:
-                u["defn"] = rng.choice(["A", "B", "A", "B", "S", "T"])
+                u["defn"] = rng.choice(["A", "B", "G", "G", "S", "T"])
             elif rng.random() < 0.15:
                 u["defn"] = "2*m"
             if rng.random() < 0.2:
@@ -298,6 +320,10 @@ class UnitScopeMachine(Machine):
             w["use"] = 0
         kinds = sorted(w)
         kind = rng.choices(kinds, [w[k] for k in kinds])[0]
+        if rng.random() < 0.04:
+            # the collector runs now (the simulator owns it): finalisers of scopes that were
+            # closed, refused or abandoned earlier fire while other scopes are open
+            return {"op": "gc"}
         if kind == "open":
             n = rng.randint(1, 5)
             names = self._fresh(rng, n + 1)
@@ -443,10 +469,12 @@ class UnitScopeMachine(Machine):
                     t = CUSTOM_TYPES[u["defn"]]
                     if t not in want_types:
                         want_types.append(t)
-        if sorted(t.__name__ for t in types_extra) != sorted(t.__name__ for t in want_types):
+        def _nm(t):
+            return getattr(t, "__name__", None) or repr(t)[:60]
+        if sorted(_nm(t) for t in types_extra) != sorted(_nm(t) for t in want_types):
             raise Violation("conversion_types_not_those_of_open_scopes",
-                            {"where": where, "extra": [t.__name__ for t in types_extra],
-                             "want": [t.__name__ for t in want_types]},
+                            {"where": where, "extra": [_nm(t) for t in types_extra],
+                             "want": [_nm(t) for t in want_types]},
                             signature=f"C09/types_leak/{where}")
         base_types = [t for t in snap["types"] if any(t is b for b in base["types"])]
         if len(base_types) != len(base["types"]) or \
@@ -472,10 +500,30 @@ class UnitScopeMachine(Machine):
                             {"symbol": sym, "convert_to": base,
                              "error": [type(e).__name__, repr(e.args)[:200]]},
                             signature="C09/usable_inside/error")
+        if u.get("defn") == "G":
+            factor = factor + 10.0        # its own conversion class: an offset of 10
         if not math.isclose(float(v), factor, rel_tol=1e-12):
             raise Violation("custom_unit_wrong_inside_scope",
-                            {"symbol": sym, "got": float(v), "want": factor},
+                            {"symbol": sym, "got": float(v), "want": factor,
+                             "definition": u.get("defn")},
                             signature="C09/usable_inside/value")
+
+    def _probe_builtin(self, where):
+        """A conversion between built-in units follows the conversion classes of the scopes
+        that are open now, and nothing else."""
+        gauge = any(u.get("defn") == "G" for sc in self.stack for u in sc["units"])
+        want = 11.0 if gauge else 274.15
+        try:
+            got = float(Quantity(1, "Cel").value("K"))
+        except Exception as e:
+            raise Violation("builtin_conversion_failed",
+                            {"where": where, "error": [type(e).__name__, repr(e.args)[:200]]},
+                            signature=f"C09/builtin_conversion/{where}")
+        if not math.isclose(got, want, rel_tol=1e-12):
+            raise Violation("builtin_conversion_follows_a_scope_that_is_not_open",
+                            {"where": where, "conversion": "1 Cel -> K", "got": got, "want": want,
+                             "gauge_class_open": gauge},
+                            signature=f"C09/builtin_conversion/{where}")
 
     def _exit(self, sc, info, where):
         """Leave a scope exactly as the with-statement does; the scope's own cleanup must
@@ -546,6 +594,12 @@ class UnitScopeMachine(Machine):
             out = self._apply_use(op)
         elif kind == "dip":
             out = self._apply_dip(op)
+        elif kind == "gc":
+            import gc
+            gc.collect()
+            self.stats.fault("collector_run_mid_history", True)
+            self._check_open_state("after_gc")
+            out = ("collected", len(self.stack))
         else:
             return "skip", None
         self.abstract = f"d{len(self.stack)}" + ("f" if self.had_fault else "")
@@ -624,6 +678,7 @@ class UnitScopeMachine(Machine):
 
     def _apply_use(self, op):
         sym = op["sym"]
+        self._probe_builtin("use")
         u = self.open_symbols().get(sym)
         prefix = op.get("prefix") or ""
         if u is not None:
